@@ -62,4 +62,25 @@ if __name__ == "__main__":
                                 "ndesc": [len(d) for d in desc]})
         except Exception as ex:
             out["land"].append({"ok": False, "exc": type(ex).__name__, "msg": str(ex)[:200]})
+    out["design"] = []
+    for c in p.get("design", []):
+        # the same lot through the public interface: GHEManager setters + set_design; what the search will be handed
+        from e2e import make_manager, materialise
+        from ghedesigner.domains import bi_rectangle_nested
+        try:
+            g = make_manager(materialise(c["cfg"]))
+            d = g._design
+            dom = d.coordinates_domain_nested
+            gc = c["cfg"]["geometric_constraints"]
+            ob = gc["property_boundary"]
+            ob = [ob] if isinstance(ob[0][0], (int, float)) else ob
+            L = max(float(v[0]) for o in ob for v in o)
+            W = max(float(v[1]) for o in ob for v in o)
+            grid, _ = bi_rectangle_nested(L, W, gc["b_min"], gc["b_max_x"], gc["b_max_y"])
+            def pts(f):
+                return [[unfr(Fraction(x)), unfr(Fraction(y))] for x, y in f]
+            out["design"].append({"ok": True, "fields": [[pts(f) for f in l] for l in dom], "grid": [[pts(f) for f in l] for l in grid],
+                                  "ndesc": [len(x) for x in d.fieldDescriptors]})
+        except Exception as ex:
+            out["design"].append({"ok": False, "exc": type(ex).__name__, "msg": str(ex)[:200]})
     emit(out)
